@@ -272,7 +272,12 @@ def xsd_text(s: dict) -> str:
     out += own[:k] + grefs + own[k:]
     if 'own' in s['wilds']:
         out.append(xsd_wild(s['wilds']['own']['c'], s['wilds']['own']['pc']))
-    out.append('</xs:complexType></xs:element></xs:schema>')
+    out.append('</xs:complexType></xs:element>')
+    # each attribute group also used alone by another element: combining it with other wildcards in `e` must not
+    # change what those elements admit (the groups are shared components)
+    for g in ('AG1', 'AG2'):
+        out.append(f'<xs:element name="alone{g}"><xs:complexType><xs:attributeGroup ref="t:{g}"/></xs:complexType></xs:element>')
+    out.append('</xs:schema>')
     return '\n'.join(out)
 
 
@@ -630,6 +635,18 @@ def run_set(ctx: Ctx, drv: Optional[Driver], s: dict, v11: bool, tmp: Path, subs
                                                                       'message': str(e)[:300]})
         return
     it = intended(s)
+    # shared attribute groups keep their own wildcard whatever other types combine them with
+    for gname in ('AG1', 'AG2'):
+        if gname in s['wilds']:
+            alone = b.schema.elements['alone' + gname].type.attributes.get(None)
+            c = s['wilds'][gname]['c']
+            names_u = [('', 'zz'), (T, 'zz'), (F, 'zz'), (U, 'zz'), ('urn:fresh', 'zz')]
+            got = None if alone is None else [bool(alone.is_matching('{%s}%s' % n if n[0] else n[1])) for n in names_u]
+            want = [den_q(c, n) for n in names_u]
+            if got != want:
+                ctx.failure('the wildcard of an attribute group used alone differs from its declared constraint '
+                            '(changed by being combined in another type?)', dict(case0, group=gname),
+                            {'declared': c, 'admits': dict(zip(['absent', 'tns', 'urn:f', 'urn:u', 'fresh'], got or []))})
     g = introspect_group(b)
     if g is None:
         ctx.failure('built group cannot be expressed in the model (type outside the catalogue / malformed '
